@@ -5,6 +5,7 @@
 -/
 import GHEVerif.Lemmas.Search
 import GHEVerif.Lemmas.SearchNested
+import GHEVerif.Lemmas.SearchRowWise
 
 namespace GHEVerif.C02
 open GHEVerif GHEVerif.Search
@@ -186,6 +187,72 @@ theorem exception_kinds (counts : List Nat) (E : Nat → Rat → Rat) (cfg : Cfg
       cases hf : finalPick counts (dictSet s.mem i (E i cfg.maxH)) with
       | none => rw [hf] at h; cases h
       | some k => rw [hf] at h; cases h
+
+/-! ### RowWise search -/
+
+/-- RowWise unmet policy: when both the densest and the sparsest field fail at maximum height the
+    search raises `ValueError` unless the user asked to continue, in which case it returns the
+    densest field (flagged as an escape). -/
+theorem rowwise_unmet_too_large (Es : Rat → Rat) (nb : Rat → Nat) (szs : Rat → Rat) (E1 : Rat)
+    (Esub : Nat → Rat) (c : RWCfg) (h1 : 0 < Es c.start) (h2 : 0 < Es c.stop) :
+    (rowwiseSearch Es nb szs E1 Esub c).1 =
+      (if c.cont then .selected (.atSpacing c.start) true else .valueError) := by
+  unfold rowwiseSearch
+  simp only
+  have : Es c.start > 0 ∧ Es c.stop > 0 := ⟨h1, h2⟩
+  rw [if_pos this]
+
+/-- The dense field fails but the sparse one passes (excess not monotone in the spacing), or an
+    end excess is exactly zero: the search reports an error (`ValueError`), it does not return a
+    design. -/
+theorem rowwise_inconsistent_ends (Es : Rat → Rat) (nb : Rat → Nat) (szs : Rat → Rat) (E1 : Rat)
+    (Esub : Nat → Rat) (c : RWCfg) (h1 : 0 < Es c.start) (h2 : Es c.stop ≤ 0) :
+    (rowwiseSearch Es nb szs E1 Esub c).1 = .valueError := by
+  unfold rowwiseSearch
+  simp only
+  have n1 : ¬ (Es c.start > 0 ∧ Es c.stop > 0) := by intro h; linarith [h.2]
+  have n2 : ¬ (Es c.start < 0 ∧ 0 < Es c.stop) := by intro h; linarith [h.1]
+  have n3 : ¬ (Es c.stop < 0 ∧ Es c.start < 0) := by intro h; linarith [h.2]
+  rw [if_neg n1, if_neg n2, if_neg n3]
+
+/-- Both end fields pass: the RowWise search always returns a design (a sub-field of the sparsest
+    field, a single borehole, or the sparsest field itself since the F5 repair) — never an error. -/
+theorem rowwise_both_pass_returns_design (Es : Rat → Rat) (nb : Rat → Nat) (szs : Rat → Rat) (E1 : Rat)
+    (Esub : Nat → Rat) (c : RWCfg) (h1 : Es c.start < 0) (h2 : Es c.stop < 0) :
+    ∃ f, (rowwiseSearch Es nb szs E1 Esub c).1 = .selected f false ∧
+      (f = .single ∨ f = .atSpacing c.stop ∨ ∃ n, f = .sub n) := by
+  unfold rowwiseSearch
+  simp only
+  have n1 : ¬ (Es c.start > 0 ∧ Es c.stop > 0) := by intro h; linarith [h.2]
+  have n2 : ¬ (Es c.start < 0 ∧ 0 < Es c.stop) := by intro h; linarith [h.2]
+  have n3 : Es c.stop < 0 ∧ Es c.start < 0 := ⟨h2, h1⟩
+  rw [if_neg n1, if_neg n2, if_pos n3]
+  by_cases c4 : E1 ≤ 0
+  · rw [if_pos c4]; exact ⟨_, rfl, Or.inl rfl⟩
+  · rw [if_neg c4]
+    refine ⟨_, rfl, ?_⟩
+    -- the removal bisection keeps either the initial selection or a sub-field
+    have key : ∀ fuel (r : RWRem), (r.sel = .atSpacing c.stop ∨ ∃ n, r.sel = .sub n) →
+        ((rwRemove Esub fuel r).sel = .atSpacing c.stop ∨ ∃ n, (rwRemove Esub fuel r).sel = .sub n) := by
+      intro fuel
+      induction fuel with
+      | zero => intro r h; simpa [rwRemove] using h
+      | succ f ih =>
+        intro r h
+        unfold rwRemove
+        simp only
+        by_cases he : Esub ((r.nmax + r.nmin) / 2) ≤ 0
+        · simp only [he, if_true]
+          split
+          · right; exact ⟨_, rfl⟩
+          · apply ih; right; exact ⟨_, rfl⟩
+        · simp only [he, if_false]
+          split
+          · simpa using h
+          · apply ih; simpa using h
+    rcases key c.maxIter { nmax := nb c.stop, nmin := 1, sel := .atSpacing c.stop, trace := [.sp c.start, .sp c.stop] ++ [.one] } (Or.inl rfl) with h | h
+    · right; left; exact h
+    · right; right; exact h
 
 /-- Height window: in all three branches of `solve_root` the returned height lies in
     `[lower, upper]` (Brent's iterate is inside the bracket by its contract). -/
